@@ -9,7 +9,8 @@ RULE = ("generated function sets (arity 0..3, 1..3 functions, direct and mutual 
         "argument, condition, return operand, list element and inside caller loops; argument counts below, at and above "
         "the arity; caller locals, the caller's loop counter and a pending else-chain are printed after each call. "
         "Compared with the Lean model and the structured semantics. Non-trivial: a return sits inside a loop or conditional."
-        ' Closing-return family: the documented style `ফাং f(a) { body } ফেরত e;` (12 body shapes: empty, locals not visible, early return, loop, recursion, failing operand) x 7 call sites x 2/1/0 arguments.')
+        ' Closing-return family: the documented style `ফাং f(a) { body } ফেরত e;` (12 body shapes: empty, locals not visible, early return, loop, recursion, failing operand) x 7 call sites x 2/1/0 arguments.'
+        ' Shared name-collision family (props/collisions.py): 24 scenarios in which one name is bound more than once, x 2 layouts.')
 ASSUMPTIONS = ["recursion depth stays far below the native stack limit"]
 default_compare = lambda m, i: C.compare_run(m, i)
 
@@ -131,4 +132,10 @@ def cases(rng, tier, stats):
         prog = pg.program(r.range(4, 9), n_funcs=r.range(1, 3))
         out.append(prog_case("random-program", prog, rng=r, mode=r.choice(["lines", "wild"])))
     stats["random_programs"] = nr
+    # one name in two roles (props/collisions.py): shadowed functions, parameters named like globals / built-ins / their own function,
+    # bare conditions, indexed and plain writes, re-declarations — every use of a name resolves to its innermost binding
+    from props import collisions
+    nc_ = collisions.family()
+    out += nc_
+    stats["name_collision_programs"] = len(nc_)
     return out
